@@ -848,10 +848,16 @@ ProgOutcome runProgram(const qh::Plan& plan, const std::string& property, uint64
                 want[std::string(d.kind == 0 ? "qubit " : "qubit[] ") + declName(d, id)] = out;
             }
             std::map<std::string, std::string> got;
+            std::map<std::string, std::map<std::string, int>> gotDeaths;
             bool multi = false;
-            for (auto& a : ev.trackedCounts())
+            for (auto& a : ev.trackedCounts()) {
+                if (a.first.rfind("Q1", 0) == 0 || a.first.rfind("Q2", 0) == 0) { for (auto& b : a.second) gotDeaths[a.first][b.first] += b.second; continue; }   // tracked fields of objects
                 for (auto& b : a.second) { if (b.second != 1 || got.count(a.first)) multi = true; got[a.first] = b.first; }
-            if (multi || got != want) {
+            }
+            if (gotDeaths != I.trackedDeaths) {
+                auto str = [](const std::map<std::string, std::map<std::string, int>>& m) { std::string s; for (auto& a : m) { s += a.first + "{"; for (auto& b : a.second) s += b.first + ":" + std::to_string(b.second) + " "; s += "} "; } return s; };
+                push("tracked_outcome_of_owner_differs_from_measurements", "C02", "objects released during the run recorded " + str(gotDeaths) + "but their fields' last measurements at release give " + str(I.trackedDeaths));
+            } else if (multi || got != want) {
                 std::string gs, ws;
                 for (auto& kv : got) gs += kv.first + "=" + kv.second + " ";
                 for (auto& kv : want) ws += kv.first + "=" + kv.second + " ";
